@@ -306,3 +306,114 @@ fn c07_k1_counted_dereference_leaves_overlay_alone() {
 	std::mem::forget(overlay); std::mem::forget(first); std::mem::forget(second); std::mem::forget(o);
 }
 
+
+// =====================================================================================
+// C01.K5 / C07.K2: DbInner::process_commits — hand-over of one queued commit from the commit overlay to the log.
+// The planning of the operations (IndexedChangeSet::write_plan), the table headers (Column::complete_plan) and the
+// log file write (Log::end_record) are contracts that record when they run; the dequeueing, the byte accounting, the
+// order "record written and published to the log overlay BEFORE the commit overlay lets go of it", the retirement by
+// *commit id* (not by log record id: the two counters drift apart as soon as the database writes records of its own,
+// e.g. reindex batches) and the reindex scheduling are the real code.
+// =====================================================================================
+pub static mut PC_DB: *const DbInner = std::ptr::null();
+pub static mut PC_PLANNED: usize = 0;
+pub static mut PC_ENDED: usize = 0;
+pub static mut PC_REINDEX: bool = false;
+pub static mut PC_BYTES: u64 = 0;
+pub static mut PC_OVERLAY_AT_END: (bool, bool, u8, u64) = (false, false, 0, 0);
+pub fn stub_cs_write_plan(_cs: &IndexedChangeSet, _db: &Arc<DbInner>, _col: ColId, _column: &Column, _w: &mut crate::log::LogWriter, ops: &mut u64, reindex: &mut bool) -> Result<()> {
+	unsafe {
+		assert!(PC_ENDED == 0, "C01.K5 operations are planned before the record is closed");
+		PC_PLANNED += 1;
+		*ops += 1;
+		if PC_REINDEX { *reindex = true; }
+	}
+	Ok(())
+}
+pub fn stub_complete_plan(_c: &Column, _w: &mut crate::log::LogWriter) -> Result<()> { Ok(()) }
+pub fn stub_end_record(_l: &crate::log::Log, change: crate::log::LogChange) -> Result<u64> {
+	unsafe {
+		PC_ENDED += 1;
+		// what a concurrent reader would still find in the commit overlay at the moment the record becomes visible in the log overlay
+		PC_OVERLAY_AT_END = peek(&(*PC_DB).commit_overlay.read()[0], &key(1));
+		std::mem::forget(change);
+		Ok(PC_BYTES)
+	}
+}
+
+fn process_commits_case(own_is_set: bool) {
+	let o = opts(1);
+	let mut dbi = mk_db(o, 1, false);
+	dbi.columns.push(crate::column::verif_kani::mini_plain_column(false));
+	let cid: u64 = kani::any();
+	let later: u64 = kani::any();
+	let rid: u64 = kani::any();
+	kani::assume(cid >= 1 && cid < 1000 && later != cid && later < 1000 && rid >= 1 && rid < 1000);
+	crate::log::verif_kani::log_set_next_record_id(&dbi.log, rid);
+	let v: u8 = kani::any();
+	let v2: u8 = kani::any();
+	let nr0: u64 = kani::any();
+	dbi.next_reindex.store(nr0, Ordering::Relaxed);
+	{
+		let mut ov = dbi.commit_overlay.write();
+		ov[0].indexed.insert(key(1), (cid, if own_is_set { Some(vec![v].into()) } else { None }));
+		// key(2) was written by this commit and again by a later, still queued commit: the overlay entry carries the later id
+		ov[0].indexed.insert(key(2), (later, Some(vec![v2].into())));
+	}
+	let mut commit: CommitChangeSet = Default::default();
+	let mut cs = IndexedChangeSet::new(0);
+	cs.changes.push(if own_is_set { Operation::Set(key(1), vec![v].into()) } else { Operation::Dereference(key(1)) });
+	cs.changes.push(Operation::Set(key(2), vec![0u8].into()));
+	commit.indexed.insert(0, cs);
+	let cbytes: usize = kani::any();
+	kani::assume(cbytes < 1000);
+	{
+		let mut q = dbi.commit_queue.lock();
+		q.record_id = 1000;
+		q.bytes = cbytes + 7;
+		q.commits.push_back(Commit { id: cid, bytes: cbytes, changeset: commit });
+	}
+	unsafe { PC_PLANNED = 0; PC_ENDED = 0; PC_REINDEX = kani::any(); PC_BYTES = kani::any(); kani::assume(PC_BYTES < 100000); }
+	let db = Arc::new(dbi);
+	unsafe { PC_DB = Arc::as_ptr(&db); }
+	let r = db.process_commits(&db);
+	unsafe { PC_DB = std::ptr::null(); }
+	assert!(matches!(r, Ok(true)), "C01.K5 a queued commit is processed");
+	unsafe {
+		assert!(PC_PLANNED == 1 && PC_ENDED == 1, "C01.K5 one record per commit: planned once, written once");
+		assert!(PC_OVERLAY_AT_END == (true, own_is_set, if own_is_set { v } else { 0 }, cid), "C01.K5 the commit overlay still serves the commit's writes when its record is published to the log overlay");
+	}
+	{
+		let ov = db.commit_overlay.read();
+		assert!(peek(&ov[0], &key(1)) == (false, false, 0, 0), "C01.K5 once logged, the commit's own overlay entries are retired");
+		assert!(peek(&ov[0], &key(2)) == (true, true, v2, later), "C01.K5 an entry overwritten by a later queued commit survives (retirement goes by commit id, not by log record id)");
+	}
+	{
+		let q = db.commit_queue.lock();
+		assert!(q.commits.len() == 0 && q.bytes == 7, "C01.K5 the commit leaves the queue and its bytes are released");
+	}
+	assert!(*db.log_queue_wait.work.lock() == unsafe { PC_BYTES } as i64, "C01.K5 logged bytes are accounted for the flush / throttle logic");
+	let nr = db.next_reindex.load(Ordering::Relaxed);
+	assert!(nr == if unsafe { PC_REINDEX } { rid } else { nr0 }, "C09.S a full index page met while planning schedules reindexing after this very record");
+	assert!(crate::log::verif_kani::log_next_record_id(&db.log) == rid + 1, "C01.K5 one log record number consumed");
+	kani::cover!(later == rid);
+	kani::cover!(unsafe { PC_REINDEX });
+	std::mem::forget(r);
+	std::mem::forget(db);
+}
+
+macro_rules! c01_k5 {
+	($name:ident, $set:expr) => {
+		crate::verif_env! {
+			#[kani::proof]
+			#[kani::unwind(3)]
+			#[kani::stub(<std::os::fd::OwnedFd as std::ops::Drop>::drop, crate::verif_common::fd_drop_noop)]
+			#[kani::stub(crate::db::IndexedChangeSet::write_plan, stub_cs_write_plan)]
+			#[kani::stub(crate::column::Column::complete_plan, stub_complete_plan)]
+			#[kani::stub(crate::log::Log::end_record, stub_end_record)]
+			fn $name() { process_commits_case($set) }
+		}
+	};
+}
+c01_k5!(c01_k5_process_commits_hands_over_set, true);
+c01_k5!(c01_k5_process_commits_hands_over_removal, false);
